@@ -20,8 +20,18 @@ func init() {
 			"(3) needsForceDelete is true only with a node deadline and (terminating ∧ eligible, or a pod grace period and now after deadline − grace); the force-delete grace period is clamped by a constant ≥ 1 and carries a UID precondition; " +
 			"(4) the queue's deadline map is written only in Add with earlier(existing, new) (min with nil = +∞) and deleted only in complete, always under the mutex; " +
 			"(5) Drain enqueues the first non-empty priority group only, groups are ordered (non-critical non-daemon, non-critical daemon, critical non-daemon, critical daemon), only needsForceDelete pods bypass tiering, and Drain's cone contains no delete/evict call; " +
-			"(6) the pod predicates IsEvictable / IsDrainable / IsWaitingEviction imply their documented literals.",
-		NotCovered: []string{"PDB enforcement by the API server", "timing between drain passes and queue reconciles", "value of pod grace periods"},
+			"(6) the pod predicates IsEvictable / IsDrainable / IsWaitingEviction imply their documented literals; " +
+			"(7) a queue entry (which carries the earliest deadline) is dropped by complete() only from Reconcile / evict / forceDelete and only when the eviction or delete call returned nil, the API server answered NotFound or Conflict, or the pod is no longer active — never after a refused eviction (429 / PDB) or another error; " +
+			"(8) on every path of Drain after the waiting set is computed the tier-bypassing (needsForceDelete) batch is handed to Queue.Add unless it is empty, before any tier can return; " +
+			"(9) Taints.Tolerates reports an error only for a taint that no toleration tolerated and returns nothing else, and ToleratesPod judges the pod's own tolerations (so a pod tolerating karpenter.sh/disrupted is recognised); " +
+			"(10) IsOwnedBy answers true only for an owner reference equal in APIVersion and Kind to a wanted kind, true as soon as one is found, false only after all were tried; IsOwnedByNode asks for exactly {v1, Node} and IsOwnedByDaemonSet for exactly {apps, v1, DaemonSet}; IsDrainable is false only for tolerating / stuck-terminating / static pods and IsStuckTerminating presupposes IsTerminating; parseDoNotDisrupt rejects only unparsable or non-positive durations and returns the parsed one; " +
+			"(11) the deadline: Drain is called only from awaitDrain with the time it was given, the termination steps receive nodeTerminationTime(node, NodeClaim), and that function returns either nil or the parsed karpenter.sh/nodeclaim-termination-timestamp annotation (non-nil only with a NodeClaim, the annotation present and a nil parse error).",
+		NotCovered: []string{"PDB enforcement by the API server", "timing between drain passes and queue reconciles", "value of pod grace periods",
+			"who writes the karpenter.sh/nodeclaim-termination-timestamp annotation and whether it matches spec.terminationGracePeriod (C16 decides that side); a deadline derived in another way than parsing that annotation is reported and has to be re-confirmed",
+			"liveness of the queue (an entry that is never completed, a pod that is queued but whose event is never sent, a mutex that is not released): entries leak or pods stay, no pod is removed wrongly",
+			"the one-minute threshold of IsStuckTerminating, IsTerminal / IsTerminating themselves (reading them wrongly stops evictions or crashes on a nil deletion timestamp; it does not evict a protected pod)",
+			"corev1.Toleration.ToleratesTaint and schema.GroupVersion.String themselves; whether the two index expressions compared in IsOwnedBy belong to the same owner reference / wanted kind (the loops' index values render alike)",
+			"which slice the emptiness test in front of the tier-bypassing Add looks at is decided on the rendering only (the two batches of Drain render alike; C09.MPT1b identifies the batch as an SSA value for the final test)"},
 		Rules:      c10Rules,
 	})
 }
@@ -132,7 +142,204 @@ func c10RulesBase(tier string) []Rule {
 		core.Custom{ID: "C10.REG1", Kind: "REG", Run: c10Groups},
 	}
 	rules = append(rules, podPredicateRules("C10")...)
+	rules = append(rules, c10SweepRules()...)
 	return rules
+}
+
+// c10SweepRules: the facts found unguarded by the C10 mutation sweep (sweep/C10.missed.txt and the pod predicates read
+// by hand).
+func c10SweepRules() []Rule {
+	const (
+		qrec  = "(*tor.Queue).Reconcile"
+		fdel  = "(*tor.Queue).forceDelete"
+		evict = "(*tor.Queue).evict"
+		drain = "(*tor.Terminator).Drain"
+		tol   = "(scheduling.Taints).Tolerates"
+		pkgp  = "utils/pod."
+	)
+	complete := `^call \(\*tor\.Queue\)\.complete\(\$0, \$2\)`
+	evErr := `iface:\(cr/client\.SubResourceWriter\)\.Create\(iface:\(cr/client\.SubResourceClientConstructor\)\.SubResource\(\$0\.kubeClient, "eviction"\), <\*corev1\.Pod>\$2, .*\)`
+	delErr := `iface:\(cr/client\.Writer\)\.Delete\(\$0\.kubeClient, <\*corev1\.Pod>\$2, .*\)`
+	// "this taint is not tolerated": the flag of the toleration loop is false (or its combinator form says no)
+	notTolerated := G(`-^phi\(false\|phi\(true\|\(\*corev1\.Toleration\)\.ToleratesTaint\(`,
+		`-^lo\.Find\[corev1\.Toleration\]\(\$1, closure:.*\)#1$`, `-^lo\.(ContainsBy|SomeBy)\[corev1\.Toleration\]\(\$1, closure:.*\)$`)
+	owner := `\$0\.ObjectMeta\.OwnerReferences\[.*\]`
+	gvString := `\(apim/runtime/schema\.GroupVersion\)\.String\(\(apim/runtime/schema\.GroupVersionKind\)\.GroupVersion\(\$1\[.*\]\)\)`
+	sameAPIVersion := []string{`^` + owner + `\.APIVersion == ` + gvString + `$`, `^` + gvString + ` == ` + owner + `\.APIVersion$`}
+	sameKind := []string{`^` + owner + `\.Kind == \$1\[.*\]\.Kind$`, `^\$1\[.*\]\.Kind == ` + owner + `\.Kind$`}
+	plus := func(ps []string) []string {
+		var out []string
+		for _, p := range ps {
+			out = append(out, "+"+p)
+		}
+		return out
+	}
+	annotation := `\$2\.ObjectMeta\.Annotations\["karpenter\.sh/nodeclaim-termination-timestamp"\]`
+	return []Rule{
+		// ---- the queue entry carries the earliest deadline a pod was queued under (WMC3/ORD2). It can only do so while it
+		// exists: an entry dropped while the pod is still there and still to be removed is re-created by the next drain pass
+		// under whatever deadline that pass was handed. So complete(pod) runs only when the API server accepted the removal
+		// (nil error), when it says the pod is gone / is another pod (NotFound, Conflict), or when the pod is no longer active
+		WMC{ID: "C10.WMC6", Sink: `^(call|go|defer) \(\*tor\.Queue\)\.complete\(`, Allowed: []string{qrec, evict, fdel}, Required: []string{qrec, evict, fdel}},
+		DOM{ID: "C10.DOM5", Fn: evict, Sink: complete, Min: 2, Gates: gates(
+			G(`+^`+evErr+` == nil$`, `+^apim/api/errors\.IsNotFound\(`+evErr+`\)$`, `+^apim/api/errors\.IsConflict\(`+evErr+`\)$`),
+		), Note: "an eviction the API server refused (429: a PDB) leaves the entry, and with it the deadline, in place"},
+		DOM{ID: "C10.DOM6", Fn: fdel, Sink: complete, Min: 2, Gates: gates(
+			G(`+^`+delErr+` == nil$`, `+^apim/api/errors\.IsNotFound\(`+delErr+`\)$`, `+^apim/api/errors\.IsConflict\(`+delErr+`\)$`),
+		), Note: "Conflict = the UID precondition failed: the pod under this name is another pod"},
+		DOM{ID: "C10.DOM7", Fn: qrec, Sink: complete, Gates: gates(
+			G(`-^utils/pod\.IsActive\(\$2\)$`),
+		)},
+
+		// ---- the pods that bypass the tiers are exempt from the ordering only because they are being removed now: on every
+		// path of Drain after the waiting set is computed the bypass batch is handed to Queue.Add, unless it is empty
+		// (a past-deadline non-critical pod that is neither tiered nor queued stays while critical pods are evicted)
+		POST{ID: "C10.POST1", Fn: drain, From: `^call lo\.Filter\[\*corev1\.Pod, \[\]\*corev1\.Pod\]\(utils/node\.GetPods\(`,
+			Must:   []string{`^call \(\*tor\.Queue\)\.Add\(\$0\.evictionQueue, \$3, phi\(nil\|.*\)$`, `^call \(\*tor\.Queue\)\.Add\(\$0\.evictionQueue, \$3, .*#\d+\)$`},
+			Excuse: []string{`-^len\(phi\(nil\|.*\)>=[01]$`, `-^len\(.*#\d+\)>=[01]$`},
+			Note:   "which batch this is (the needsForceDelete one) is decided by DOM4"},
+
+		// ---- "tolerates the disruption taint": ToleratesDisruptedNoScheduleTaint is `ToleratesPod(...) == nil` (TTp7), so a pod
+		// that does tolerate the taint is protected only if Tolerates reports an error for a taint solely when no toleration
+		// tolerated it, and if the tolerations judged are the pod's
+		DOM{ID: "C10.TOL2", Fn: tol, Sink: `^call go\.uber\.org/multierr\.Append\(`, Gates: gates(notTolerated)},
+		core.Custom{ID: "C10.TOL3", Kind: "RET", Run: func(w *core.World, id string) []core.Result {
+			return core.RetLeavesGuarded(w, id, "RET", tol, 0, `^nil$`, notTolerated, 1, "Tolerates returns a non-nil error only for a taint that no toleration tolerated")
+		}},
+		core.Custom{ID: "C10.TOL4", Kind: "PROV", Run: func(w *core.World, id string) []core.Result {
+			return core.InstrPresent(w, id, "PROV", "(scheduling.Taints).ToleratesPod", `^return \(scheduling\.Taints\)\.Tolerates\(\$0, \$1\.Spec\.Tolerations\)$`, 1, "ToleratesPod judges the pod's own tolerations against the receiver's taints")
+		}},
+
+		// ---- owner tests: "static pod" (IsEvictable / IsDrainable) and "daemon pod" (the tiers) are IsOwnedBy over a fixed
+		// kind. IsOwnedBy answers true only for an owner reference whose APIVersion and Kind both equal the wanted ones,
+		// answers true once such a reference is found, and answers false only after all wanted kinds were tried
+		MPT{ID: "C10.TTp8", Fn: pkgp + "IsOwnedBy", Ret: core.RetTrue, Gates: gates(G(plus(sameAPIVersion)...), G(plus(sameKind)...))},
+		core.Custom{ID: "C10.TTp8b", Kind: "IMPL", Run: func(w *core.World, id string) []core.Result {
+			// whichever of the two comparisons is made last decides: after it holds, false is out of reach
+			var vacuous, violated []core.Result
+			for _, l := range append(append([]string{}, sameKind...), sameAPIVersion...) {
+				rs := IMPL{ID: id, Fn: pkgp + "IsOwnedBy", Lit: "+" + l, Not: core.RetFalse}.Check(w)
+				switch {
+				case len(rs) == 1 && rs[0].Status == core.Discharged:
+					return rs
+				case len(rs) > 0 && strings.HasPrefix(rs[0].Msg, "vacuous"):
+					vacuous = rs
+				case violated == nil:
+					violated = rs // reported in terms of the Kind comparison when neither closes the question
+				}
+			}
+			if violated != nil {
+				return violated
+			}
+			return vacuous
+		}},
+		MPT{ID: "C10.TTp8c", Fn: pkgp + "IsOwnedBy", Ret: core.RetFalse, Gates: gates(G(`-^\(phi\(-1\|\(phi↺ \+ 1\)\) \+ 1\) < len\(\$1\)$`, `-^len\(\$1\)>=1$`))},
+		core.Custom{ID: "C10.TTp9", Kind: "PROV", Run: func(w *core.World, id string) []core.Result {
+			return c10OwnerKind(w, id, pkgp+"IsOwnedByNode", "", "v1", "Node", "a static (mirror) pod is a pod owned by its v1 Node")
+		}},
+		core.Custom{ID: "C10.TTp10", Kind: "PROV", Run: func(w *core.World, id string) []core.Result {
+			return c10OwnerKind(w, id, pkgp+"IsOwnedByDaemonSet", "apps", "v1", "DaemonSet", "a daemon pod is a pod owned by an apps/v1 DaemonSet")
+		}},
+		// a pod is left out of the waiting set (and so of the tier gate) only for the documented reasons; "stuck terminating"
+		// presupposes that the pod's removal has already been requested
+		MPT{ID: "C10.TTp2b", Fn: pkgp + "IsDrainable", Ret: core.RetFalse, Gates: gates(
+			G(`+^utils/pod\.ToleratesDisruptedNoScheduleTaint\(\$0\)$`, `+^utils/pod\.IsStuckTerminating\(\$0, \$1\)$`, `+^utils/pod\.IsOwnedByNode\(\$0\)$`),
+		)},
+		MPT{ID: "C10.TTp11", Fn: pkgp + "IsStuckTerminating", Ret: core.RetTrue, Gates: gates(G(`+^utils/pod\.IsTerminating\(\$0\)$`))},
+		// a duration-valued do-not-disrupt annotation is rejected (and then treated as absent, TTp6) only when it does not
+		// parse or is not positive; the duration handed back is the parsed one
+		MPT{ID: "C10.TTp6d", Fn: pkgp + "parseDoNotDisrupt", Ret: core.RetSpec{Index: -1, Want: "nonnil"}, Min: 2, Gates: gates(
+			G(`-^time\.ParseDuration\(\$0\)#1 == nil$`, `-^0 < time\.ParseDuration\(\$0\)#0$`, `+^time\.ParseDuration\(\$0\)#0 < 1$`),
+		)},
+		core.Custom{ID: "C10.TTp6e", Kind: "PROV", Run: func(w *core.World, id string) []core.Result {
+			return core.InstrPresent(w, id, "PROV", pkgp+"parseDoNotDisrupt", `^return time\.ParseDuration\(\$0\)#0, nil$`, 1, "an accepted do-not-disrupt duration is the parsed annotation value")
+		}},
+
+		// ---- "only when the NodeClaim has a termination grace period": the deadline Drain works with (PROV1, TT1) is the
+		// NodeClaim's karpenter.sh/nodeclaim-termination-timestamp annotation, or nil
+		WMC{ID: "C10.WMC7", Sink: `^(call|go|defer) \(\*tor\.Terminator\)\.Drain\(`, Allowed: []string{"(*term.Controller).awaitDrain"}, Required: []string{"(*term.Controller).awaitDrain"}},
+		core.Custom{ID: "C10.PROV2", Kind: "PROV", Run: func(w *core.World, id string) []core.Result {
+			rs := core.ArgProvenance(w, id, "(*term.Controller).awaitDrain", `^call \(\*tor\.Terminator\)\.Drain\(`, 3, `^\$4$`, "awaitDrain hands Drain the node termination time it was given")
+			return append(rs, core.ArgProvenance(w, id, "(*term.Controller).finalize", `^call dyn:&local<\[3\]term\.terminationFunc>`, 3,
+				`^\(\*term\.Controller\)\.nodeTerminationTime\(\$0, \$2, utils/node\.NodeClaimForNode\(\$0\.kubeClient, \$2\)#0\)#0$`, "the termination steps receive nodeTerminationTime(node, its NodeClaim)")...)
+		}},
+		MPT{ID: "C10.MPT2", Fn: "(*term.Controller).nodeTerminationTime", Ret: core.RetSpec{Index: 0, Want: "nonnil"}, Gates: gates(
+			G(`-^\$2 == nil$`),
+			G(`+^`+annotation+`#1$`),
+			G(`+^time\.Parse\(.*, `+annotation+`#0\)#1 == nil$`),
+		)},
+		core.Custom{ID: "C10.RET1", Kind: "RET", Run: func(w *core.World, id string) []core.Result {
+			// no value other than nil and the parsed annotation is ever returned
+			const ntt = "(*term.Controller).nodeTerminationTime"
+			fn := w.Fn(ntt)
+			if fn == nil {
+				return []core.Result{core.Anchor(id, "RET", ntt)}
+			}
+			allowed := regexp.MustCompile(`^nil$|^time\.Parse\(.*, ` + annotation + `#0\)#0$`)
+			n, parsed := 0, 0
+			var out []core.Result
+			for _, s := range w.ReturnSinks(fn, core.RetAny) {
+				seen := map[ssa.Value]bool{}
+				var visit func(v ssa.Value)
+				visit = func(v ssa.Value) {
+					if phi, ok := v.(*ssa.Phi); ok {
+						if !seen[v] {
+							seen[v] = true
+							for _, e := range phi.Edges {
+								visit(e)
+							}
+						}
+						return
+					}
+					n++
+					r := w.RenderD(v, 8)
+					if !allowed.MatchString(r) {
+						out = append(out, core.Bad(id, "RET", "RET:"+ntt+":deadline", w.InstrPos(s.Ret), "the node deadline handed to Drain can be `"+r+"`: expected nil or the parsed karpenter.sh/nodeclaim-termination-timestamp annotation of the NodeClaim (pods may be deleted directly only under that deadline)"))
+					} else if r != "nil" {
+						parsed++
+					}
+				}
+				visit(core.ResolveRet(s.Ret, 0))
+			}
+			if parsed == 0 {
+				out = append(out, core.Bad(id, "RET", "RET:"+ntt+":deadline", w.Pos(fn.Pos()), "vacuous: the parsed termination-timestamp annotation is never returned"))
+			}
+			if len(out) == 0 {
+				out = append(out, core.OK(id, "RET", "RET:"+ntt+":deadline", n, "the node deadline is nil or the parsed termination-timestamp annotation of the NodeClaim"))
+			}
+			return out
+		}},
+	}
+}
+
+// c10OwnerKind: fn is `return IsOwnedBy(pod, []GroupVersionKind{{group, version, kind}})` with exactly that one kind.
+func c10OwnerKind(w *core.World, id, fnName, group, version, kind, what string) []core.Result {
+	fn := w.Fn(fnName)
+	if fn == nil {
+		return []core.Result{core.Anchor(id, "PROV", fnName)}
+	}
+	construct := "PROV:" + fnName + ":kind"
+	bad := func(msg string) []core.Result {
+		return []core.Result{core.Bad(id, "PROV", construct, w.Pos(fn.Pos()), what+": "+msg)}
+	}
+	if len(w.SitesOr(fn, regexp.MustCompile(`^return utils/pod\.IsOwnedBy\(\$0, &local<\[1\]apim/runtime/schema\.GroupVersionKind>\[:\]\)$`), false, 1)) == 0 {
+		return bad("the answer is no longer IsOwnedBy(pod, <one GroupVersionKind>)")
+	}
+	re := regexp.MustCompile(`^store &local<apim/runtime/schema\.GroupVersionKind>\.(Group|Version|Kind) = (.*)$`)
+	got := map[string]string{"Group": `""`, "Version": `""`, "Kind": `""`}
+	n := 0
+	for _, s := range w.SitesOr(fn, re, false, 1) {
+		m := re.FindStringSubmatch(w.RenderInstr(s))
+		got[m[1]] = m[2]
+		n++
+	}
+	want := map[string]string{"Group": fmt.Sprintf("%q", group), "Version": fmt.Sprintf("%q", version), "Kind": fmt.Sprintf("%q", kind)}
+	for _, f := range []string{"Group", "Version", "Kind"} {
+		if got[f] != want[f] {
+			return bad(fmt.Sprintf("the owner %s tested is %s, expected %s", f, got[f], want[f]))
+		}
+	}
+	return []core.Result{core.OK(id, "PROV", construct, n, what)}
 }
 
 // podPredicateRules: implications of the pod predicates shared by C07 and C10.
